@@ -11,7 +11,8 @@ import json, os, subprocess, sys, shutil, glob, time
 
 ROOT = os.path.dirname(os.path.dirname(os.path.abspath(__file__)))
 REPO = "/repo"
-ENV = dict(os.environ, GOFLAGS="-mod=mod", GOPROXY="off", GOSUMDB="off", GOTOOLCHAIN="local")
+ENV = dict(os.environ, GOFLAGS="-mod=mod", GOPROXY="off", GOSUMDB="off", GOTOOLCHAIN="local",
+           VERIF_EVIDENCE_DIR=os.path.join(ROOT, ".work", "seed-evidence"))      # evidence of runs on changed trees is not the record
 
 
 def sh(cmd, cwd=None, timeout=900):
